@@ -194,7 +194,11 @@ def spec_root(kind, override, order):
     """root selection from the override (int or per-order list)"""
     if isinstance(override, list):
         if order < len(override):
-            return override[order]
+            # documented: "If 0 is used, uses the default inverse root"; the constructor accepts every non-negative entry (C17)
+            e = override[order]
+            if isinstance(e, SymInt):
+                return SymInt(z3.If(e.t == 0, z3.IntVal(default_root(kind, order)), e.t))
+            return default_root(kind, order) if e == 0 else e
         return default_root(kind, order)
     if isinstance(override, SymInt):
         return SymInt(z3.If(override.t == 0, z3.IntVal(default_root(kind, order)), override.t))
@@ -271,7 +275,7 @@ def _mk_override(ovk):
         return o
     lst = [SymInt(f"inv_root_override_{i}") for i in range(n)]
     for e in lst:
-        assume(e.t >= 1)  # a zero entry of a per-order list is used literally by the code (division by zero): excluded
+        assume(e.t >= 0)  # the constructor's domain (C17): every non-negative entry, 0 meaning "default root for that order"
     return lst
 
 
@@ -387,8 +391,8 @@ def run_list_case(case, tier, prop):
         want_root = spec_root(kind, v["override"], order)
         got_root = init["roots"][0]
         out.append(prove(F("_get_inverse_roots_from_override/root-selection") + tag, "BaseShampooPreconditionerList._get_inverse_roots_from_override_with_high_order_default",
-                         hyp, as_int(got_root) == as_int(want_root), model_vars=dict(mvs, **_ov_vars(v["override"])), case=case,
-                         text="root = override[order] if list and order < len else default; scalar 0 => default"))
+                         hyp, as_int(got_root) == as_int(want_root), model_vars=dict(mvs, **_ov_vars(v["override"])), case=case, replay=dict(kind="plist", case=case),
+                         text="root = override[order] if list and order < len else default; a 0 (scalar or list entry) means the default root for that order"))
         # ---- factor recurrence, bias correction ----
         G = v["G"]
         for j, d in enumerate(pd):
@@ -548,7 +552,7 @@ def native_list_check(kind, shape, ignored, override, beta2, eps, bias, steps, r
               inv_root_override=override, use_bias_correction=bias, factor_matrix_dtype=fdt)
     pd = pdims(order, ignored)
     if isinstance(override, (list, tuple)):
-        root = override[order] if order < len(override) else default_root(kind, order)
+        root = (override[order] or default_root(kind, order)) if order < len(override) else default_root(kind, order)  # 0 = default
     else:
         root = default_root(kind, order) if override == 0 else override
     L = [torch.zeros(shape[d], shape[d], dtype=torch.float64) for d in pd]
@@ -621,18 +625,24 @@ def native_list_check(kind, shape, ignored, override, beta2, eps, bias, steps, r
     return bad
 
 
-def native_case(case, seed=0, steps=4):
-    """Native check matching one symbolic case id (order / ignored dims / override kind)."""
+def native_case(case, seed=0, steps=4, model=None):
+    """Native check matching one symbolic case id (order / ignored dims / override kind); override values from the verifier's
+    counter-model when it has them."""
     import random
     kind, order, ignored, ovk = _parse(case)
     rng = random.Random(f"{case}/{seed}")
     shape = [rng.choice([1, 2, 3]) for _ in range(order)]
+    model = model or {}
     if ovk[0] == "const0":
         override = 0
     elif ovk[0] == "int":
-        override = rng.choice([0, 1, 2, 3])
+        override = model.get("inv_root_override")
+        override = int(override) if isinstance(override, (int, float)) and override >= 0 else rng.choice([0, 1, 2, 3])
     else:
-        override = [rng.choice([1, 2, 3, 4]) for _ in range(ovk[1])]
+        override = []
+        for i in range(ovk[1]):
+            v = model.get(f"inv_root_override[{i}]", model.get(f"inv_root_override_{i}"))
+            override.append(int(v) if isinstance(v, (int, float)) and v >= 0 else rng.choice([0, 1, 2, 3, 4]))
     beta2 = rng.choice([1.0, 0.9, 0.5])
     bias = rng.choice([True, False])
     mult = rng.choice([1.0, 2.0, 0.5]) if kind == "shampoo" else 1.0
@@ -645,10 +655,10 @@ def native_case(case, seed=0, steps=4):
     return cfgd, bad
 
 
-def replay_plist(rp):
+def replay_plist(rp, model=None):
     out = []
     for seed in range(6):
-        cfgd, bad = native_case(rp["case"], seed)
+        cfgd, bad = native_case(rp["case"], seed, model=model)
         if bad:
             return True, f"native run {cfgd}: " + "; ".join(bad[:3])
     return False, "6 native runs of this configuration agree with the documented recurrences"
